@@ -611,7 +611,7 @@ func (w *rwWorld) checkAcks(checked map[int]int) []rwUnconfirmed {
 				if w.taskConfirmed(s, r.id) {
 					continue
 				}
-				out = append(out, rwUnconfirmed{ack: a, rec: r, label: w.classify(s, r.id)})
+				out = append(out, rwUnconfirmed{ack: a, rec: r, label: w.classifyPair(s, a, r.id)})
 			}
 		}
 		checked[s.idx] = len(s.acks)
@@ -619,34 +619,45 @@ func (w *rwWorld) checkAcks(checked map[int]int) []rwUnconfirmed {
 	return out
 }
 
-// classify labels an acknowledged-but-unconfirmed task by where its copies are.
-func (w *rwWorld) classify(s *rwSource, id int64) string {
-	forwarded, deadTarget, liveTarget := false, false, false
+// classify labels an acknowledged-but-unconfirmed (ack, task) pair by its relation to the failures of the history.
+//   stale_state_after_source_reconnect: the ack was sent on a re-established source stream (incarnation >= 1); target-side
+//       proxy-id tables and in-flight acks still refer to the source's previous incarnation (re-sent lower ids after
+//       higher ones already forwarded) - known finding KF-A;
+//   lost_with_dead_target_incarnation: the source never reconnected; the task was handed to / sent on a target-stream
+//       incarnation that ended before confirming it (or was still queued for a target whose stream ended) and the
+//       source stream was not restarted - known finding KF-B;
+//   no_failure_involved: neither - never a known finding.
+func (w *rwWorld) classifyPair(s *rwSource, a rwSourceAck, id int64) string {
+	if a.inc >= 1 {
+		return "stale_state_after_source_reconnect"
+	}
+	owner := -1
+	delivered, onEnded := false, false
 	for _, r := range s.allTasks {
 		if r.id != id {
 			continue
 		}
+		owner = r.target
 		for _, d := range r.deliveries {
-			forwarded = true
+			delivered = true
 			t := w.targets[d.target]
 			if d.targetInc < len(t.incs)-1 || t.incs[d.targetInc].ended {
-				deadTarget = true
-			} else {
-				liveTarget = true
+				onEnded = true
 			}
 		}
 	}
-	switch {
-	case liveTarget:
-		return "sent_unconfirmed_on_live_target"
-	case deadTarget:
+	if delivered && onEnded {
 		return "lost_with_dead_target_incarnation"
-	case forwarded:
-		return "forwarded"
-	default:
-		// never observed on a target face: queued inside the proxy or dropped with a dead stream
-		return "never_delivered"
 	}
+	if !delivered && owner >= 0 {
+		t := w.targets[owner]
+		for _, inc := range t.incs {
+			if inc.ended {
+				return "lost_with_dead_target_incarnation"
+			}
+		}
+	}
+	return "no_failure_involved"
 }
 
 // endAll ends every stream and lets the proxy wind down; returns what is left registered.
